@@ -159,9 +159,13 @@ impl Candidate {
     /// # Returns
     /// 接辞と自立語をセットで取得した漢字と読みのタプル。candidateとして接辞が含まれない場合にはNoneを返す
     pub fn to_string_with_affix(&self) -> Option<(String, String)> {
-        let current = self;
-        let next = self.next.as_ref().filter(|v| v.is_word_node());
-        let next_to_next = self
+        // 変換結果として返却するcandidateは常にBOSから始まるため、BOSは読み飛ばす
+        let current = match (&self.current_node, self.next.as_ref()) {
+            (graph::Node::Bos, Some(next)) => next.as_ref(),
+            _ => self,
+        };
+        let next = current.next.as_ref().filter(|v| v.is_word_node());
+        let next_to_next = current
             .next
             .as_ref()
             .and_then(|v| v.next.as_ref().filter(|v| v.is_word_node()));
